@@ -282,7 +282,7 @@ func c08(r *Run) {
 			i2 := &c08inj{src: src2, t: t2, y: "q", method: m2, hasA: true, wellA: true, tokened: true, form: form, vetoed: vetoRule(m2, t2)}
 			deliver(i2, q2)
 			r.Probe("tokened-write")
-		} else if r.YieldMode || ch.Chance(3, 4, "single") {
+		} else if ch.Chance(3, 4, "single") {
 			inj, p := gen()
 			deliver(inj, p)
 		} else {
@@ -292,7 +292,9 @@ func c08(r *Run) {
 				inj, p := gen()
 				injected = append(injected, inj)
 				r.Logf("inject(burst) y=%s q=%q t=%s src=%s", inj.y, inj.method, r.TShow(inj.src.String(), inj.t), inj.src)
-				conn.InjectBlocking(inj.src, p)
+				if !r.InjectSoon(conn, inj.src, p) {
+					r.Violate("serve-loop-not-reading", "burst datagram could not be handed to the read loop")
+				}
 			}
 			r.Probe("burst")
 			r.Settle()
